@@ -1,6 +1,6 @@
 (* C05 — property theorems (statements only; proofs live in Proofs*.v). *)
 From Coq Require Import List ZArith QArith Bool Sorting.Permutation.
-Require Import QV.C05.Model QV.C05.Spec QV.C05.Param QV.C05.Proofs QV.C05.Proofs2 QV.C05.Proofs3 QV.C05.Proofs4 QV.C05.Proofs5 QV.C05.Ctors QV.C05.Proofs6 QV.C05.Proofs7 QV.C05.ProofsP.
+Require Import QV.C05.Model QV.C05.Spec QV.C05.Param QV.C05.Proofs QV.C05.Proofs2 QV.C05.Proofs3 QV.C05.Proofs4 QV.C05.Proofs5 QV.C05.Ctors QV.C05.Proofs6 QV.C05.Proofs7 QV.C05.ProofsP QV.C05.Proofs8.
 Import ListNotations.
 Open Scope Z_scope.
 
@@ -156,3 +156,31 @@ Theorem C05_global_transformation_param : forall q ps S G, guard_C05_parallel_or
   end.
 Proof. exact global_transformation_param. Qed.
 Print Assumptions C05_global_transformation_param.
+
+(* ---- chained with_mapping: MappingPT(MappingPT(x, r1, m1, pm1), ren, mren, pm) with an unnamed inner mapping is merged
+        (renamings composed, parameter mappings substituted) ---- *)
+(* the merged renaming acts like the composition (no side condition: first match wins on both sides) *)
+Theorem C05_ren_merge : forall r1 r2 k, ren_get (ren_merge r1 r2) k = ren_get r2 (ren_get r1 k).
+Proof. exact ren_merge_get. Qed.
+Print Assumptions C05_ren_merge.
+(* MappedScope over MappedScope = MappedScope of the substituted mapping, name by name (covers x -> 2x below x -> x+1,
+   swaps, partial mappings) *)
+Theorem C05_mapped_scope_merge : forall sc pm1 pm y, smap (smap sc pm) pm1 y = smap sc (pm_merge pm1 pm) y.
+Proof. exact smap_merge. Qed.
+Print Assumptions C05_mapped_scope_merge.
+(* closed templates: the two compilations are EQUAL programs, for every G and every S that does not name the inner
+   mapping; and the constructor of Ctors.v denotes the same pulse as the explicit nesting *)
+Theorem C05_ctor_mapping_eq : forall S i j ren mren r1 m1 x G, in_S S j = false ->
+  compile (PMap i (ren_merge r1 ren) (ren_merge m1 mren) x) S G = compile (PMap i ren mren (PMap j r1 m1 x)) S G.
+Proof. exact ctor_map_eq. Qed.
+Print Assumptions C05_ctor_mapping_eq.
+Theorem C05_ctor_mapping : forall i u ren mren p G,
+  same_prog (compile (ctor_map i u ren mren p) [] G) (compile (PMap i ren mren p) [] G).
+Proof. exact ctor_map_same. Qed.
+Print Assumptions C05_ctor_mapping.
+(* parametrised templates, with parameter mappings: equal programs for every parameter assignment *)
+Theorem C05_ctor_mapping_param : forall S i j ren mren pm r1 m1 pm1 x ps G, in_S S j = false ->
+  compile_q (QMap i (ren_merge r1 ren) (ren_merge m1 mren) (pm_merge pm1 pm) x) ps S G
+  = compile_q (QMap i ren mren pm (QMap j r1 m1 pm1 x)) ps S G.
+Proof. exact ctor_map_param. Qed.
+Print Assumptions C05_ctor_mapping_param.
